@@ -77,7 +77,15 @@ def run_verus_unit(unit, workdir, tier, seed):
         cmd += ["--smt-option", "smt.random_seed=%d" % (seed % 1000)]
     rc, out, err, dt = sh(cmd, cwd=workdir, timeout=tmo)
     if rc == -9:
-        raise Undecided("verus %s: timeout after %ds" % (unit, tmo))
+        # Z3 occasionally wanders off on a nonlinear query; one retry with another random seed before giving up (exit 2)
+        cmd2 = [c for c in cmd if not c.startswith("smt.random_seed")]
+        cmd2 = [c for i_, c in enumerate(cmd2) if not (c == "--smt-option" and i_ + 1 >= len(cmd2))] 
+        cmd2 = [c for c in cmd2 if c != "--smt-option"] + ["--smt-option", "smt.random_seed=%d" % (7 + seed % 1000)]
+        rc, out, err, dt2 = sh(cmd2, cwd=workdir, timeout=tmo)
+        dt += dt2
+        cmd = cmd2
+        if rc == -9:
+            raise Undecided("verus %s: timeout after %ds (twice, two solver seeds)" % (unit, tmo))
     try:
         j = json.loads(out)
     except Exception:
